@@ -51,6 +51,8 @@ def run(tier):
     out.assumptions = ['exception classes: ValueError, KeyError, module-qualified xdvhelp.CustomErr; messages from 7 templates; '
                        'raised directly or from a called helper',
                        'the comparison of the final traceback line under ELLIPSIS is the checker of C05/C06']
+    from . import tracelib
+    tracelib.traced_replay(out, 'C03_Parts<=1', 'C03_Parts', 1)
     return out.finish()
 
 
